@@ -96,6 +96,103 @@ func (s *c10fSink) wait() ([]byte, error) {
 	return s.buf, s.err
 }
 
+// finish ends a sink from outside (scripted local end: Close was called, or never).
+func (s *c10fSink) finish(err error) {
+	s.mu.Lock()
+	if !s.done {
+		s.done, s.err = true, err
+	}
+	s.cond.Broadcast()
+	s.mu.Unlock()
+}
+
+func (s *c10fSink) isDone() bool {
+	s.mu.Lock()
+	defer s.mu.Unlock()
+	return s.done
+}
+
+var errC10fLocalReset = errors.New("c10: local connection reset by application")
+
+// c10fLocal is a scripted local connection for the forwarder: its Read hands out the
+// upload in seeded chunks and ends it the way real readers may (io.Reader contract):
+// the last bytes TOGETHER with io.EOF / with another error, or the error on a separate
+// call. Its Write feeds the download sink; Close ends that sink; writes after Close
+// are refused.
+type c10fLocal struct {
+	data     []byte // what the local side delivers before its end
+	off      int
+	r        *rand.Rand
+	gate     chan struct{} // closed when the upload may start
+	lockstep *c10fSink     // hand out more only when the peer holds what was handed out
+	withData bool
+	endErr   error
+	ended    bool
+	postEnd  atomic.Int64
+	sink     *c10fSink
+	closed   chan struct{}
+	once     sync.Once
+	closes   atomic.Int64
+}
+
+func (l *c10fLocal) Read(p []byte) (int, error) {
+	select {
+	case <-l.gate:
+	case <-l.closed:
+		return 0, io.ErrClosedPipe
+	}
+	if l.ended {
+		l.postEnd.Add(1)
+		return 0, l.endErr
+	}
+	if len(p) == 0 {
+		return 0, nil
+	}
+	if l.lockstep != nil && l.off > 0 {
+		l.lockstep.waitFor(l.off)
+	}
+	if l.off == len(l.data) {
+		l.ended = true
+		return 0, l.endErr
+	}
+	k := 1 + l.r.Intn(70000)
+	if l.r.Intn(3) == 0 {
+		k = 1 + l.r.Intn(5000)
+	}
+	if k > len(p) {
+		k = len(p)
+	}
+	if k > len(l.data)-l.off {
+		k = len(l.data) - l.off
+	}
+	copy(p, l.data[l.off:l.off+k])
+	l.off += k
+	if l.off == len(l.data) && l.withData {
+		l.ended = true
+		return k, l.endErr
+	}
+	return k, nil
+}
+
+func (l *c10fLocal) Write(p []byte) (int, error) {
+	select {
+	case <-l.closed:
+		return 0, io.ErrClosedPipe
+	default:
+	}
+	l.sink.mu.Lock()
+	l.sink.buf = append(l.sink.buf, p...)
+	l.sink.cond.Broadcast()
+	l.sink.mu.Unlock()
+	return len(p), nil
+}
+
+func (l *c10fLocal) Close() error {
+	l.closes.Add(1)
+	l.once.Do(func() { close(l.closed); l.sink.finish(io.EOF) })
+	return nil
+}
+
 type c10fHalfCloser interface {
 	io.Writer
 	CloseWrite() error
@@ -183,7 +280,7 @@ func TestVerifC10Forward(t *testing.T) {
 	vk.Quiet()
 	run := vk.Start(t, "C10", "forward")
 	defer run.Finish()
-	run.Rule("real runBidirectionalForward(LocalConn = vk.BufPipe end, RemoteConn = FrameStream over loopback TCP, with/without LocalConnCloser and traffic counters); peer node = second FrameStream; orders remote-first (peer sends + CloseWrite/Close, local uploads afterwards in lockstep with the peer's receipt), local-first (mirror), simultaneous; sizes per direction {0, <200, 64K-1..64K+1, ..400K} in seeded chunks; distinct = (order, peer ending, upload size class, download size class)")
+	run.Rule("real runBidirectionalForward(LocalConn = vk.BufPipe end, RemoteConn = FrameStream over loopback TCP, with/without LocalConnCloser and traffic counters); peer node = second FrameStream; orders remote-first (peer sends + CloseWrite/Close, local uploads afterwards in lockstep with the peer's receipt), local-first (mirror), simultaneous; sizes per direction {0, <200, 64K-1..64K+1, ..400K} in seeded chunks; local end = in-memory pipe, or a scripted connection whose Read ends with (n>0, io.EOF), (0, io.EOF) on a separate call, or (n>0, other error) at a seeded offset; traffic counters set in 2/3 of the cases (then also: counters == bytes delivered); distinct = (order, local end, peer ending, counters, upload size class, download size class)")
 	r := run.Rand("gen")
 	ln, err := net.Listen("tcp", "127.0.0.1:0")
 	if err != nil {
@@ -192,8 +289,9 @@ func TestVerifC10Forward(t *testing.T) {
 	defer ln.Close()
 	ctx, cancel := context.WithCancel(context.Background())
 	defer cancel()
-	n := run.Pick(90, 1500)
+	n := run.Pick(150, 2500)
 	orders := []string{"remote-first", "local-first", "simultaneous"}
+	locals := []string{"pipe", "eof-with-data", "pipe", "eof-separate", "err-with-data"}
 	for i := 0; i < n; i++ {
 		order := orders[i%3]
 		up, down := c10fSize(r), c10fSize(r)
@@ -204,11 +302,12 @@ func TestVerifC10Forward(t *testing.T) {
 			down = 1 + r.Intn(300<<10)
 		}
 		peerEnd := []string{"closewrite", "close"}[r.Intn(2)]
-		withCloser, withCounters := r.Intn(2) == 0, r.Intn(2) == 0
+		withCloser, withCounters := r.Intn(2) == 0, r.Intn(3) != 0
+		local := locals[i%len(locals)]
 		upData, downData := vk.Pattern(r.Uint64(), 0, up), vk.Pattern(r.Uint64(), 0, down)
 		idStr := fmt.Sprintf("tcp-tunnel-%d-%d", int64(1727400000)*1e9+r.Int63n(int64(1e17)), 1024+r.Intn(60000))
 		det := map[string]any{"seed": run.Seed, "case": i, "order": order, "upload_bytes": up, "download_bytes": down,
-			"peer_ending": peerEnd, "local_conn_closer": withCloser, "counters": withCounters, "tunnel_id": idStr}
+			"peer_ending": peerEnd, "local_conn_closer": withCloser, "counters": withCounters, "tunnel_id": idStr, "local_end": local}
 		run.Case(fmt.Sprintf("forward|%d|%s", i, order), det)
 		seeds := [4]int64{r.Int63(), r.Int63(), r.Int63(), r.Int63()}
 
@@ -219,10 +318,27 @@ func TestVerifC10Forward(t *testing.T) {
 		app, fwdLocal := vk.BufPipe("c10-app", "c10-fwd")
 		app.SetReadDeadline(time.Now().Add(c10fWatchdog))
 		fwdLocal.SetReadDeadline(time.Now().Add(c10fWatchdog))
-
+		peerSink, appSink := c10fNewSink(), c10fNewSink() // peer receives the upload, app the download
+		var loc *c10fLocal
+		wantUp := upData
 		cfg := &BidirectionalForwardConfig{TunnelID: idStr, LogPrefix: "C10", LocalConn: fwdLocal, RemoteConn: nodeStream}
+		if local != "pipe" {
+			loc = &c10fLocal{data: upData, r: rand.New(rand.NewSource(seeds[2])), gate: make(chan struct{}), sink: appSink,
+				closed: make(chan struct{}), withData: local != "eof-separate", endErr: io.EOF}
+			if local == "err-with-data" {
+				// the application aborts after a seeded part of what it had to send
+				loc.data = upData[:r.Intn(up+1)]
+				loc.endErr = errC10fLocalReset
+				wantUp = loc.data
+				det["local_aborts_at"] = len(loc.data)
+			}
+			if order == "remote-first" {
+				loc.lockstep = peerSink
+			}
+			cfg.LocalConn = loc
+		}
 		if withCloser {
-			cfg.LocalConnCloser = fwdLocal
+			cfg.LocalConnCloser = cfg.LocalConn.(io.Closer)
 		}
 		var sent, recv atomic.Int64
 		if withCounters {
@@ -231,9 +347,19 @@ func TestVerifC10Forward(t *testing.T) {
 		fwdDone := make(chan struct{})
 		go func() { defer close(fwdDone); runBidirectionalForward(cfg) }()
 
-		peerSink, appSink := c10fNewSink(), c10fNewSink() // peer receives the upload, app the download
 		go peerSink.run(peerStream, rand.New(rand.NewSource(seeds[0])), up)
-		go appSink.run(app, rand.New(rand.NewSource(seeds[1])), down)
+		if loc == nil {
+			go appSink.run(app, rand.New(rand.NewSource(seeds[1])), down)
+		}
+		// sendUp makes the local side deliver its upload (pipe: the application writes and
+		// half-closes; scripted: the gate of the scripted reader opens)
+		sendUp := func(lockstep *c10fSink, res *c10fSendRes, rr *rand.Rand) {
+			if loc != nil {
+				close(loc.gate)
+				return
+			}
+			c10fSend(app, upData, rr, lockstep, res)
+		}
 
 		var upRes, downRes c10fSendRes
 		peerW := c10fHalfCloser(peerStream)
@@ -247,21 +373,32 @@ func TestVerifC10Forward(t *testing.T) {
 			// the application has everything the peer sent; the peer's end-of-stream frame
 			// is right behind it on the same connection
 			appSink.waitFor(down)
-			c10fSend(app, upData, upR, peerSink, &upRes)
+			sendUp(peerSink, &upRes, upR)
 		case "local-first":
-			c10fSend(app, upData, upR, nil, &upRes)
-			peerSink.waitFor(up)
+			sendUp(nil, &upRes, upR)
+			peerSink.waitFor(len(wantUp))
 			c10fSend(peerW, downData, downR, appSink, &downRes)
 		default:
 			var wg sync.WaitGroup
 			wg.Add(1)
 			go func() { defer wg.Done(); c10fSend(peerW, downData, downR, nil, &downRes) }()
-			c10fSend(app, upData, upR, nil, &upRes)
+			sendUp(nil, &upRes, upR)
 			wg.Wait()
 		}
 		peerGot, peerErr := peerSink.wait()
-		appGot, appErr := appSink.wait()
 		returned := true
+		if loc != nil {
+			// scripted local end: its download sink ends when the forwarder closes it
+			select {
+			case <-fwdDone:
+			case <-time.After(c10fWatchdog):
+				returned = false
+			}
+			if !appSink.isDone() {
+				appSink.finish(errors.New("c10: forwarder returned without closing the local connection"))
+			}
+		}
+		appGot, appErr := appSink.wait()
 		select {
 		case <-fwdDone:
 		case <-time.After(c10fWatchdog):
@@ -280,8 +417,12 @@ func TestVerifC10Forward(t *testing.T) {
 			continue
 		}
 		run.Count("order_"+order, 1)
+		run.Count("local_"+local, 1)
+		if withCounters {
+			run.Count("local_"+local+"_with_counters", 1)
+		}
 		run.Count("bytes_compared", int64(len(peerGot)+len(appGot)))
-		run.Distinct(fmt.Sprintf("%s|%s|up=%s|down=%s", order, peerEnd, c10fClass(up), c10fClass(down)))
+		run.Distinct(fmt.Sprintf("%s|%s|%s|counters=%v|up=%s|down=%s", order, local, peerEnd, withCounters, c10fClass(len(wantUp)), c10fClass(down)))
 		if i < 3 {
 			run.Sample(det)
 		}
@@ -291,8 +432,8 @@ func TestVerifC10Forward(t *testing.T) {
 			class = "local-write-refused"
 		case downRes.errStr != "":
 			class = "peer-write-refused"
-		case !bytes.Equal(peerGot, upData):
-			class = "upload-" + c10fDiff(peerGot, upData)
+		case !bytes.Equal(peerGot, wantUp):
+			class = "upload-" + c10fDiff(peerGot, wantUp)
 		case peerErr != io.EOF:
 			class = "upload-no-eof"
 		case !bytes.Equal(appGot, downData):
@@ -300,18 +441,21 @@ func TestVerifC10Forward(t *testing.T) {
 		case appErr != io.EOF:
 			class = "download-no-eof"
 		}
+		if class == "" && withCounters && (sent.Load() != int64(len(peerGot)) || recv.Load() != int64(len(appGot))) {
+			// everything was delivered and nobody failed: the traffic counters must show
+			// exactly the bytes that were delivered
+			class = "counter-mismatch"
+			det["bytes_sent_counter"], det["bytes_received_counter"] = sent.Load(), recv.Load()
+		}
 		if class == "" {
 			run.Count("cases_ok", 1)
-			if withCounters && (sent.Load() != int64(up) || recv.Load() != int64(down)) {
-				run.Count("traffic_counter_mismatch_observed", 1)
-			}
 			continue
 		}
 		det["upload_delivered"], det["upload_end"] = len(peerGot), fmt.Sprint(peerErr)
 		det["download_delivered"], det["download_end"] = len(appGot), fmt.Sprint(appErr)
 		det["local_write_error"], det["peer_write_error"] = upRes.errStr, downRes.errStr
 		det["local_bytes_accepted"] = len(upRes.accepted)
-		run.Violation("C10:forward|"+class+"|order="+order, det)
+		run.Violation("C10:forward|"+class+"|order="+order+"|local="+local, det)
 		if run.Violations() >= 8 {
 			break
 		}
@@ -323,6 +467,10 @@ func TestVerifC10Forward(t *testing.T) {
 	for _, o := range orders {
 		run.Floor("order_"+o, int64(n/3*8/10))
 	}
+	run.Floor("local_pipe", int64(n/5))
+	run.Floor("local_eof-with-data_with_counters", int64(n/5/3))
+	run.Floor("local_err-with-data_with_counters", int64(n/5/3))
+	run.Floor("local_eof-separate", int64(n/5*8/10))
 }
 
 // c10fCloseAsHalf ends the peer's direction with a Close frame instead of an EOF frame.
